@@ -172,6 +172,13 @@ def build(case):
                       phase_list=PhaseList(pl) if pl else None, prop=props, **kw)
     if case.get("mask") is not None:
         xmap = xmap[np.array(case["mask"], bool)]
+    for p in case.get("extra_phases", []):   # a phase in the list without points (public API: PhaseList.add)
+        xmap.phases.add(Phase(name=p["name"], space_group=p["sg"], point_group=p["pg"], structure=structure_of(p),
+                              color=p["color"]))
+    if case.get("add_not_indexed"):
+        xmap.phases.add_not_indexed()
+    if case.get("ni_color"):
+        xmap.phases[-1].color = case["ni_color"]
     return xmap
 
 
